@@ -22,6 +22,7 @@ CASE_TIMEOUT = 600
 PER_CALL_S = 20          # bounded liveness: one library call on <= 64 KiB of input (>= 1000x its normal cost)
 HANG_CONFIRM_S = 1500    # isolated re-execution of a suspected hang, per-call limit x10
 MAX_NESTING = 300        # the property bounds nesting below the recursion limit
+SHALLOW = 60             # a RecursionError on input whose nesting estimate is at most this is a violation
 RULE = ('one evaluation = one load (scan | parse | compose | compose_all) x (pure Python | LibYAML) x (in memory | SimReader '
         'stream) of one corpus/synthetic document after 0-5 seeded channel faults; non-trivial = at least one fault was '
         'applied and changed the unit string; distinct = distinct digests of the delivered unit string')
@@ -41,7 +42,7 @@ ALPHABET_TEXT = list('"\'\\|>!&*%[]{}:#-?@`,~<=') + ['\n', '\r', '\t', ' ', '\x0
 ALPHABET_BYTES = [ord(c) for c in '"\'\\|>!&*%[]{}:#-?@`,~<=\n\r\t 09UuxFfG'] + [0x00, 0x85, 0xFF, 0xFE, 0xC0, 0xC2, 0xEF, 0xBB, 0xBF,
                                                                                  0x80, 0xE2, 0xED, 0xF4, 0xF8, 0x7F, 0x01]
 FAULTS = ['truncate', 'bitflip', 'overwrite', 'drop', 'duplicate', 'stutter', 'swap', 'garbage', 'bom', 'oddlen',
-          'confuse', 'surrogate', 'nest', 'transcode', 'numfield']
+          'confuse', 'surrogate', 'nest', 'transcode', 'numfield', 'flood']
 # what ends up in a numeric field (escape code, URI escape, version number, indentation indicator)
 # after a small corruption: the characters that int() / float() / str.isdigit() accept or almost accept
 NUMFIELD_CHARS = ['-', '+', ' ', '\t', '_', '.', 'x', 'X', 'o', 'b', 'e', 'L', 'l', 'G', 'g', '\n', '\u0663', '\u00b2', '\u2460', '\uff10',
@@ -150,6 +151,13 @@ def gen_fault(r, units, is_text):
         else:
             f['at'] = q
             f['unit'] = r.choice(NUMFIELD_CHARS)
+    elif kind == 'flood':
+        # one unit repeated many times (a stuck key, line noise), preferably at the start of a line
+        f['unit'] = r.choice(ALPHABET_TEXT) if is_text else r.choice(ALPHABET_BYTES)
+        f['times'] = r.choice([40, 300, 1025, 3000])
+        if r.random() < 0.6 and n:
+            starts = [0] + [i + 1 for i in range(min(n, 4000)) if (units[i] in '\n\r' if is_text else units[i] in (10, 13))]
+            f['at'] = r.choice(starts)
     elif kind == 'bitflip':
         f['bit'] = r.randrange(8 if not is_text else 7)
     elif kind == 'overwrite':
@@ -202,6 +210,12 @@ def apply_fault(units, f, is_text):
         if p >= n:
             return units
         return units[:p] + (f['unit'] if is_text else bytes([f['unit']])) + units[p + 1:]
+    if k == 'flood':
+        ins = f['unit'] * f['times'] if is_text else bytes([f['unit']]) * f['times']
+        if not is_text and units[:2] in (b'\xff\xfe', b'\xfe\xff'):
+            p -= p % 2
+            ins = ins * 2 if f['times'] % 2 else ins
+        return units[:p] + ins + units[p:]
     if k == 'numfield':
         if p >= n:
             return units
@@ -280,6 +294,27 @@ def base_payload(r, rd):
             return 'noise', ''.join(rd.choice(ALPHABET_TEXT) if rd.random() < 0.6 else chr(rd.choice([rd.randrange(0x20, 0x7f), rd.randrange(0xa0, 0x3000),
                                     rd.randrange(0x10000, 0x10ffff)])) for _ in range(n)), True
         return 'noise', bytes(rd.choice(ALPHABET_BYTES) if rd.random() < 0.6 else rd.randrange(256) for _ in range(n)), False
+    if x < 0.07:
+        # small layouts the corpus does not contain: a quoted scalar that spans lines, its last line at an
+        # arbitrary indentation, followed on the same line by another token (all small combinations)
+        q = rd.choice(['"', "'"])
+        n = rd.randint(0, 6)
+        a = rd.randint(0, n + 1)
+        b = rd.randint(0, 3)
+        last = rd.choice(['', '', 'y', 'b c'])
+        nxt = rd.choice(['z: 1', 'y', '- w', '# c', ': v', '? q', 'z:', ', u', '] ', '&a v', '!t v', '*a', '|', '"q"', ''])
+        shape = rd.randrange(4)
+        if shape == 0:
+            text = ' ' * n + 'k: ' + q + 'x\n' + ' ' * a + last + q + ' ' * b + nxt + '\n'
+        elif shape == 1:
+            text = '- ' * rd.randint(1, 3) + q + 'x\n' + ' ' * a + last + q + ' ' * b + nxt + '\n'
+        elif shape == 2:
+            text = 'top:\n' + ' ' * n + 'k: ' + q + 'a\n' + ' ' * a + last + q + ' ' * b + nxt + '\nmore: 1\n'
+        else:
+            text = ' ' * n + '? ' + q + 'x\n' + ' ' * a + last + q + ' ' * b + nxt + '\n' + ' ' * n + ': v\n'
+        if rd.random() < 0.5:
+            return 'layout', text, True
+        return 'layout', text.encode('utf-8'), False
     if x < 0.3:
         fs = corpus.files()
         name, data = fs[rd.randrange(len(fs))]
@@ -444,7 +479,8 @@ def execute(case):
         out['faults'][f['kind']] = out['faults'].get(f['kind'], 0) + 1
     if not case['faults']:
         out['extra']['fault_free_runs'] = 1
-    if nesting_estimate(units, is_text) > MAX_NESTING:
+    nest = nesting_estimate(units, is_text)
+    if nest > MAX_NESTING:
         # e.g. a stuttered '[' or '- ': nesting beyond the recursion limit is outside the property's quantifier
         # (and the pure-Python scanner's cost per token grows with the flow level, which is C20's subject)
         out['extra']['nesting_beyond_bound_out_of_scope'] = 1
@@ -483,6 +519,12 @@ def execute(case):
             except yaml.YAMLError as e:
                 exc = e
             except RecursionError:
+                if nest <= SHALLOW:
+                    out['violations'].append({'class': 'recursion-error-on-shallow-input', 'detail': {
+                        'load': [backend, api, via], 'nesting_estimate': nest}})
+                    logparts.append([backend, api, via, 'EXC', 'RecursionError'])
+                    out['evals'] += 1
+                    break
                 out['extra']['recursion_errors_out_of_scope'] = out['extra'].get('recursion_errors_out_of_scope', 0) + 1
                 exc = None
             except ReadBudgetExceeded as e:
